@@ -300,8 +300,8 @@ Proof.
         apply getZ_abs_expand. }
       assert (Hl : len (f_content (abs s1)) <= Z.max (len C) off).
       { subst s1. destruct (len C <? off) eqn:E; [|subst C; lia].
-        unfold expand_sparse, drop_reader, abs. cbn [f_stale fl_off s_ws s_buf s_rd s_co s_file f_content].
-        subst C. unfold abs. cbn [f_content].
+        subst C. unfold expand_sparse, drop_reader, abs in E |- *.
+        cbn [f_stale fl_off s_ws s_buf s_rd s_co s_file f_content] in E |- *.
         destruct (s_buf s) as [x|].
         - rewrite !len_wr_at by lia. rewrite len_wr_at in E by lia. lens. lia.
         - lens. lia. }
@@ -324,3 +324,324 @@ Proof.
       destruct Hw as (Hw1 & Hw2 & Hw3). split; [exact Hw1|split; [|reflexivity]].
       rewrite Hw2. reflexivity.
 Qed.
+
+(** ---------- int64 / uint64 views ---------- *)
+Lemma i64_u64 z : - two63 <= z < two63 -> i64 (u64 z) = z.
+Proof.
+  intros H. unfold i64, u64, two64, two63 in *.
+  rewrite Z.mod_mod by lia.
+  destruct (z mod 18446744073709551616 <? 9223372036854775808) eqn:E.
+  - pose proof (Z.mod_pos_bound z 18446744073709551616 ltac:(lia)).
+    pose proof (Z.div_mod z 18446744073709551616 ltac:(lia)).
+    assert (z / 18446744073709551616 = 0) by nia. nia.
+  - pose proof (Z.mod_pos_bound z 18446744073709551616 ltac:(lia)).
+    pose proof (Z.div_mod z 18446744073709551616 ltac:(lia)).
+    assert (z / 18446744073709551616 = -1) by nia. nia.
+Qed.
+
+Lemma u64_small z : 0 <= z < two63 -> u64 z = z.
+Proof. intros H. unfold u64, two64, two63 in *. apply Z.mod_small. lia. Qed.
+
+Lemma i64_small z : 0 <= z < two63 -> i64 z = z.
+Proof.
+  intros H. pose proof (i64_u64 z ltac:(unfold two63 in *; lia)) as E.
+  rewrite u64_small in E by exact H. exact E.
+Qed.
+
+(** ---------- Read ---------- *)
+Lemma read_ok s n : inv s -> fits (abs s) ->
+  let '(s', o) := read fl_off s n in
+  inv s' /\ abs s' = fst (spec_step (abs s) (ORead n)) /\ o = snd (spec_step (abs s) (ORead n)).
+Proof.
+  intros Hinv Hfit.
+  destruct (sync_ok s Hinv) as (Hinv1 & Habs1 & Hb1 & Hco1).
+  unfold read. set (s1 := sync fl_off s) in *.
+  pose proof (inv_co_nonneg s1 Hinv1) as Hnn.
+  assert (Hlt : s_co s1 < two63).
+  { rewrite Hco1. destruct Hfit as [Hp _]. unfold abs in Hp. cbn [f_pos] in Hp. exact Hp. }
+  rewrite (abs_nobuf s1 Hb1) in Habs1.
+  rewrite <- Habs1. cbn [spec_step f_content f_pos fst snd].
+  pose proof Hinv1 as (H1 & H2 & H3). rewrite Hb1 in H2.
+  assert (Hr : match s_rd s1 with
+               | Some r => Some r
+               | None => if i64 (s_co s1) <? 0 then None
+                         else Some {| r_snap := s_file s1; r_off := i64 (s_co s1) |}
+               end = Some {| r_snap := s_file s1; r_off := s_co s1 |}).
+  { destruct (s_rd s1) as [r|].
+    - destruct H3 as [Hs Ho]. destruct r as [sn ro]. cbn [r_snap r_off] in *. subst. reflexivity.
+    - rewrite i64_small by lia. destruct (s_co s1 <? 0) eqn:E; [lia|reflexivity]. }
+  rewrite Hr. unfold reader_read. cbn [r_snap r_off f_readws fl_off].
+  set (d := takeZ n (dropZ (s_co s1) (s_file s1))).
+  split; [|split].
+  - unfold inv. cbn [s_ws s_buf s_rd s_co s_file r_snap r_off]. rewrite Hb1.
+    pose proof (len_nonneg d). repeat split; lia.
+  - unfold abs. cbn [s_buf s_file s_ws s_co]. rewrite Hb1. reflexivity.
+  - reflexivity.
+Qed.
+
+(** ---------- Seek ---------- *)
+Lemma seek_ok s off wh : inv s -> fits (abs s) -> int64_arg off ->
+  fits (fst (spec_step (abs s) (OSeek off wh))) ->
+  let '(s', o) := seek fl_off s off wh in
+  inv s' /\ abs s' = fst (spec_step (abs s) (OSeek off wh)) /\
+  o = snd (spec_step (abs s) (OSeek off wh)).
+Proof.
+  intros Hinv Hfit Harg Hfit'.
+  destruct (sync_ok s Hinv) as (Hinv1 & Habs1 & Hb1 & Hco1).
+  unfold seek. set (s1 := sync fl_off s) in *.
+  pose proof (inv_co_nonneg s1 Hinv1) as Hnn.
+  rewrite (size_abs s1 Hinv1).
+  rewrite <- Habs1 in Hfit, Hfit' |- *.
+  rewrite (abs_nobuf s1 Hb1) in Hfit, Hfit' |- *.
+  pose proof Hinv1 as (H1 & H2 & H3). rewrite Hb1 in H2.
+  destruct Hfit as [Hp Hc]. cbn [f_pos f_content] in Hp, Hc.
+  pose proof (len_nonneg (s_file s1)) as Lf.
+  cbn [spec_step f_content f_pos f_seekend f_seekneg fl_off negb andb] in Hfit' |- *.
+  unfold int64_arg in Harg.
+  (* the target of the seek, if the whence is valid *)
+  set (tgt := if wh =? 0 then Some off else if wh =? 1 then Some (s_co s1 + off)
+              else if wh =? 2 then Some (len (s_file s1) + off) else None) in *.
+  assert (Hnew : (if wh =? 0 then Some (u64 off)
+                  else if wh =? 1 then Some (u64 (s_co s1 + off))
+                  else if wh =? 2 then Some (u64 (len (s_file s1) + off)) else None)
+                 = match tgt with Some t => Some (u64 t) | None => None end).
+  { subst tgt. destruct (wh =? 0); [reflexivity|]. destruct (wh =? 1); [reflexivity|].
+    destruct (wh =? 2); reflexivity. }
+  rewrite Hnew. clear Hnew.
+  destruct tgt as [t|] eqn:Et.
+  2:{ split; [exact Hinv1|split; [cbn [fst]; apply abs_nobuf; exact Hb1|reflexivity]]. }
+  assert (Ht : - two63 <= t < two63 + two63).
+  { subst tgt. unfold two63 in *.
+    destruct (wh =? 0); [inversion Et; lia|]. destruct (wh =? 1); [inversion Et; lia|].
+    destruct (wh =? 2); [inversion Et; lia|discriminate]. }
+  destruct (t <? 0) eqn:Eneg.
+  - (* before the start: rejected *)
+    rewrite i64_u64 by (unfold two63 in *; lia). rewrite Eneg.
+    split; [exact Hinv1|split; [cbn [fst]; apply abs_nobuf; exact Hb1|reflexivity]].
+  - destruct Hfit' as [Hp' Hc']. cbn [fst f_pos f_content] in Hp', Hc'.
+    rewrite i64_u64 by (unfold two63 in *; lia). rewrite Eneg.
+    rewrite u64_small by lia.
+    assert (Hrd : forall r, s_rd s1 = Some r -> reader_seek r off wh = ({| r_snap := r_snap r; r_off := t |}, true)).
+    { intros r Er. rewrite Er in H3. destruct H3 as [Hs Ho].
+      unfold reader_seek. subst tgt.
+      destruct (wh =? 0); [inversion Et; subst; rewrite Eneg; reflexivity|].
+      destruct (wh =? 1).
+      { inversion Et as [Et']. destruct (off =? 0) eqn:E0.
+        - destruct r as [sn ro]. cbn [r_snap r_off] in *. f_equal. f_equal. lia.
+        - rewrite Ho, Et', Eneg. reflexivity. }
+      destruct (wh =? 2); [|discriminate].
+      inversion Et as [Et']. rewrite Hs, Et', Eneg. reflexivity. }
+    destruct (len (s_file s1) <? t) eqn:Egrow.
+    + (* past the end: sparse expansion, the reader is dropped *)
+      unfold expand_sparse, drop_reader. cbn [f_stale fl_off s_rd s_file s_ws s_co s_buf].
+      split; [|split].
+      * unfold inv. cbn [s_ws s_buf s_rd s_co]. rewrite Hb1. repeat split; lia.
+      * unfold abs. cbn [s_buf s_file s_ws s_co]. rewrite Hb1. reflexivity.
+      * reflexivity.
+    + assert (Hz : zeros (t - len (s_file s1)) = []).
+      { unfold zeros. replace (Z.to_nat (t - len (s_file s1))) with O by lia. reflexivity. }
+      rewrite Hz, app_nil_r.
+      destruct (s_rd s1) as [r|] eqn:Er.
+      * rewrite (Hrd r eq_refl). split; [|split].
+        -- unfold inv. cbn [s_ws s_buf s_rd s_co s_file r_snap r_off]. rewrite Hb1.
+           destruct H3 as [Hs Ho]. repeat split; try lia. exact Hs.
+        -- unfold abs. cbn [s_buf s_file s_ws s_co]. rewrite Hb1. reflexivity.
+        -- reflexivity.
+      * split; [|split].
+        -- unfold inv. cbn [s_ws s_buf s_rd s_co]. rewrite Hb1. repeat split; lia.
+        -- unfold abs. cbn [s_buf s_file s_ws s_co]. rewrite Hb1. reflexivity.
+        -- reflexivity.
+Qed.
+
+(** ---------- Truncate ---------- *)
+Lemma truncate_ok s sz : inv s -> 0 <= sz ->
+  let '(s', o) := truncate fl_off s sz in
+  inv s' /\ abs s' = fst (spec_step (abs s) (OTruncate sz)) /\
+  o = snd (spec_step (abs s) (OTruncate sz)).
+Proof.
+  intros Hinv Hsz.
+  destruct (sync_ok s Hinv) as (Hinv1 & Habs1 & Hb1 & Hco1).
+  unfold truncate. set (s1 := sync fl_off s) in *.
+  rewrite (size_abs s1 Hinv1).
+  rewrite <- Habs1. rewrite (abs_nobuf s1 Hb1).
+  pose proof Hinv1 as (H1 & H2 & H3). rewrite Hb1 in H2.
+  cbn [spec_step f_content f_pos fst snd f_stale fl_off].
+  pose proof (len_nonneg (s_file s1)) as Lf.
+  destruct (sz =? len (s_file s1)) eqn:E1.
+  - assert (Hz : zeros (sz - len (s_file s1)) = []).
+    { unfold zeros. replace (Z.to_nat (sz - len (s_file s1))) with O by lia. reflexivity. }
+    destruct (sz <? len (s_file s1)) eqn:E2; [lia|]. rewrite Hz, app_nil_r.
+    split; [exact Hinv1|split; [apply abs_nobuf; exact Hb1|reflexivity]].
+  - destruct (len (s_file s1) <? sz) eqn:E2.
+    + destruct (sz <? len (s_file s1)) eqn:E3; [lia|].
+      unfold expand_sparse, drop_reader. cbn [f_stale fl_off s_rd s_file s_ws s_co s_buf].
+      split; [|split].
+      * unfold inv. cbn [s_ws s_buf s_rd s_co]. rewrite Hb1. repeat split; lia.
+      * unfold abs. cbn [s_buf s_file s_ws s_co]. rewrite Hb1. reflexivity.
+      * reflexivity.
+    + destruct (sz <? len (s_file s1)) eqn:E3; [|lia].
+      unfold drop_reader. cbn [s_rd s_file s_ws s_co s_buf].
+      split; [|split].
+      * unfold inv. cbn [s_ws s_buf s_rd s_co]. rewrite Hb1. repeat split; lia.
+      * unfold abs. cbn [s_buf s_file s_ws s_co]. rewrite Hb1. reflexivity.
+      * reflexivity.
+Qed.
+
+(** ---------- every step refines the byte-array file ---------- *)
+Lemma step_ok s o : inv s -> fits (abs s) -> op_wf o = true -> op_args o ->
+  fits (fst (spec_step (abs s) o)) ->
+  inv (fst (step fl_off s o)) /\ abs (fst (step fl_off s o)) = fst (spec_step (abs s) o) /\
+  snd (step fl_off s o) = snd (spec_step (abs s) o).
+Proof.
+  intros Hinv Hfit Hwf Harg Hfit'.
+  destruct o as [b|b off|off wh|n|sz| | |]; cbn [step op_wf op_args] in *.
+  - pose proof (write_ok s b Hinv) as H. destruct (write s b). exact H.
+  - pose proof (write_at_ok s b off Hinv ltac:(lia)) as H. destruct (write_at fl_off s b off). exact H.
+  - pose proof (seek_ok s off wh Hinv Hfit Harg Hfit') as H. destruct (seek fl_off s off wh). exact H.
+  - pose proof (read_ok s n Hinv Hfit) as H. destruct (read fl_off s n). exact H.
+  - pose proof (truncate_ok s sz Hinv ltac:(lia)) as H. destruct (truncate fl_off s sz). exact H.
+  - cbn [fst snd spec_step]. rewrite (size_abs s Hinv). auto.
+  - destruct (sync_ok s Hinv) as (H1 & H2 & _). cbn [fst snd spec_step]. auto.
+  - destruct (sync_ok s Hinv) as (H1 & H2 & H3 & _). cbn [fst snd spec_step].
+    split; [exact H1|split; [exact H2|]].
+    rewrite <- H2. rewrite (abs_nobuf _ H3). reflexivity.
+Qed.
+
+Lemma inv_init c : inv (init c).
+Proof. unfold inv, init. cbn. repeat split; lia. Qed.
+
+Lemma abs_init c : abs (init c) = spec_init c.
+Proof. reflexivity. Qed.
+
+Lemma run_refines : forall ops s,
+  inv s -> fits (abs s) -> forallb op_wf ops = true -> spec_fits (abs s) ops ->
+  snd (run fl_off s ops) = snd (spec_run (abs s) ops) /\
+  inv (fst (run fl_off s ops)) /\ abs (fst (run fl_off s ops)) = fst (spec_run (abs s) ops).
+Proof.
+  induction ops as [|o r IH]; intros s Hinv Hfit Hwf Hsf.
+  - cbn [run spec_run fst snd]. auto.
+  - cbn [forallb] in Hwf. apply andb_prop in Hwf. destruct Hwf as [Hwf Hwfr].
+    cbn [spec_fits] in Hsf. destruct Hsf as (Harg & Hfit' & Hsfr).
+    destruct (step_ok s o Hinv Hfit Hwf Harg Hfit') as (Hi & Ha & Ho).
+    cbn [run spec_run].
+    destruct (step fl_off s o) as [s' b] eqn:Es. destruct (spec_step (abs s) o) as [a' b'] eqn:Ea.
+    cbn [fst snd] in *. subst a' b'.
+    specialize (IH s' Hi Hfit' Hwfr Hsfr).
+    destruct (run fl_off s' r) as [s'' bs]. destruct (spec_run (abs s') r) as [a'' bs'].
+    cbn [fst snd] in *. destruct IH as (I1 & I2 & I3). subst bs'. auto.
+Qed.
+
+(** the refinement theorem *)
+Lemma refines_file c ops :
+  len c < two63 -> forallb op_wf ops = true -> spec_fits (spec_init c) ops ->
+  snd (run fl_off (init c) ops) = snd (spec_run (spec_init c) ops).
+Proof.
+  intros Hc Hwf Hsf.
+  apply (run_refines ops (init c) (inv_init c)); try assumption.
+  split; [cbn; unfold two63; lia|exact Hc].
+Qed.
+
+(** the representation invariant along every history: whatever is pending in the buffer,
+    the modifier denotes exactly the byte-array file *)
+Lemma denotes_file c ops :
+  len c < two63 -> forallb op_wf ops = true -> spec_fits (spec_init c) ops ->
+  abs (fst (run fl_off (init c) ops)) = fst (spec_run (spec_init c) ops).
+Proof.
+  intros Hc Hwf Hsf.
+  apply (run_refines ops (init c) (inv_init c)); try assumption.
+  split; [cbn; unfold two63; lia|exact Hc].
+Qed.
+
+(** Sync is invisible *)
+Lemma sync_transparent c ops :
+  len c < two63 -> forallb op_wf ops = true -> spec_fits (spec_init c) ops ->
+  let s := fst (run fl_off (init c) ops) in
+  abs (sync fl_off s) = abs s /\ s_buf (sync fl_off s) = None.
+Proof.
+  intros Hc Hwf Hsf s.
+  assert (Hinv : inv s).
+  { apply (run_refines ops (init c) (inv_init c)); try assumption.
+    split; [cbn; unfold two63; lia|exact Hc]. }
+  destruct (sync_ok s Hinv) as (_ & H2 & H3 & _). auto.
+Qed.
+
+(** ---------- no write is lost, misplaced or duplicated ---------- *)
+Lemma spec_run_app : forall l1 l2 a,
+  spec_run a (l1 ++ l2) =
+  (fst (spec_run (fst (spec_run a l1)) l2), snd (spec_run a l1) ++ snd (spec_run (fst (spec_run a l1)) l2)).
+Proof.
+  induction l1 as [|o r IH]; intros l2 a.
+  - cbn [app spec_run fst snd]. destruct (spec_run a l2); reflexivity.
+  - cbn [app spec_run]. destruct (spec_step a o) as [a' b]. rewrite IH.
+    destruct (spec_run a' r) as [a1 o1]. cbn [fst snd]. reflexivity.
+Qed.
+
+Lemma spec_quiet_content : forall q a,
+  forallb quiet q = true -> f_content (fst (spec_run a q)) = f_content a.
+Proof.
+  induction q as [|o r IH]; intros a Hq; [reflexivity|].
+  cbn [forallb] in Hq. apply andb_prop in Hq. destruct Hq as [Ho Hr].
+  cbn [spec_run]. destruct (spec_step a o) as [a' b] eqn:E.
+  specialize (IH a' Hr). destruct (spec_run a' r) as [a'' bs]. cbn [fst] in *. rewrite IH.
+  destruct o; try discriminate Ho; cbn [spec_step] in E; inversion E; reflexivity.
+Qed.
+
+Lemma no_lost_write c ops b off q :
+  len c < two63 -> 0 <= off ->
+  forallb quiet q = true ->
+  forallb op_wf (ops ++ OWriteAt b off :: q ++ [OGetNode]) = true ->
+  spec_fits (spec_init c) (ops ++ OWriteAt b off :: q ++ [OGetNode]) ->
+  let old := f_content (fst (spec_run (spec_init c) ops)) in
+  exists content,
+    last (snd (run fl_off (init c) (ops ++ OWriteAt b off :: q ++ [OGetNode]))) BPanic
+      = BNode content (len content) /\
+    len content = Z.max (len old) (off + len b) /\
+    forall i, getZ content i =
+              if (off <=? i) && (i <? off + len b) then getZ b (i - off) else getZ old i.
+Proof.
+  intros Hc Hoff Hq Hwf Hsf old.
+  rewrite (refines_file c _ Hc Hwf Hsf).
+  exists (wr_at old off b).
+  split; [|split].
+  - replace (ops ++ OWriteAt b off :: q ++ [OGetNode])
+      with ((ops ++ OWriteAt b off :: q) ++ [OGetNode])
+      by (rewrite <- app_assoc; reflexivity).
+    rewrite spec_run_app. cbn [snd]. cbn [spec_run spec_step snd]. rewrite last_last.
+    rewrite spec_run_app. cbn [fst]. cbn [spec_run].
+    set (a := fst (spec_run (spec_init c) ops)).
+    cbn [spec_step].
+    match goal with |- context [spec_run ?x q] => pose proof (spec_quiet_content q x Hq) as Hk;
+      destruct (spec_run x q) as [a2 o2] end.
+    cbn [fst f_content] in *. rewrite Hk. reflexivity.
+  - apply len_wr_at. exact Hoff.
+  - intros i. apply getZ_wr_at. exact Hoff.
+Qed.
+
+(** ---------- the recorded defects do break the refinement ---------- *)
+Definition refuted (k : N) : Prop :=
+  exists c ops, forallb op_wf ops = true /\ spec_fits (spec_init c) ops /\
+                snd (run (fl_only k) (init c) ops) <> snd (spec_run (spec_init c) ops).
+
+Ltac witness c ops :=
+  exists c, ops; split; [reflexivity | split;
+    [vm_compute; repeat split; intro; discriminate | vm_compute; intro; discriminate]].
+
+Definition digits : list Z := [48; 49; 50; 51; 52; 53; 54; 55; 56; 57].   (* "0123456789" *)
+
+Lemma overlap_refuted : refuted 1.
+Proof. witness (@nil Z) [OWrite [97; 98; 99; 100; 101; 102]; OWriteAt [88; 89] 0; OGetNode]. Qed.
+
+Lemma curoff_refuted : refuted 2.
+Proof. witness (@nil Z) [OWriteAt [65; 65; 65; 65] 10; OWriteAt [66; 66] 4; OGetNode]. Qed.
+
+Lemma seekend_refuted : refuted 3.
+Proof. witness digits [OSeek (-3) 2; OSize]. Qed.
+
+Lemma stale_refuted : refuted 4.
+Proof. witness digits [ORead 2; OTruncate 5; ORead 100]. Qed.
+
+Lemma readws_refuted : refuted 5.
+Proof. witness digits [ORead 2; OWrite [88]; OGetNode]. Qed.
+
+Lemma seekneg_refuted : refuted 6.
+Proof. witness digits [OSeek (-1) 0]. Qed.
